@@ -23,6 +23,7 @@ from common import emit, fail, sha1_of, REPO
 MACHINE_METHODS = {"add_transitions", "remove_transitions", "remove_transition", "set_state", "trigger",
                    "check_band_pipeline", "check_conf", "run", "is_not_last_scale"}
 IGNORED_ATTRS = {"_transitions_run", "_transitions_check", "state"}   # class constants / the automaton state (C01)
+LAST = None     # the datum of the last run of main(), for the harness (frame audit on real runs)
 GUARD = "cross_checking_accurate"
 MUTATORS = {"pop", "append", "extend", "insert", "remove", "clear", "update", "sort", "reverse", "setdefault",
             "add_cumulative", "add_non_cumulative"}
@@ -473,9 +474,38 @@ def main():
         sources.append((os.path.join(REPO, drel), name, sha1_of(repr((base, writers)))))
     body += "Definition shared_dicts : list shared :=\n[\n" + ";\n".join(items) + "\n].\n\n"
     body += f"(* plugin registries (written at import time by register_subclass decorators, not by check/run):\n   {registries} *)\n"
+    global LAST
+    LAST = {"attrs": init_must,
+            "prepare": {str(m): {"reads": prep[m][0], "must": prep[m][1], "may": prep[m][2]} for m in (False, True)},
+            "callbacks": {n: {str(r): {"reads": cbs[(n, r)][0], "must": cbs[(n, r)][1], "may": cbs[(n, r)][2]}
+                              for r in (False, True)} for n in callbacks}}
     _, changed = emit("History", body, sources)
+    # readable hints when the Coq obligations fail (NOT trusted, NOT used by the proof)
+    diag = []
+    for multi in (False, True):
+        for rdm in (False, True):
+            agreed = {"right_disp_map", "step"} | set(prep[multi][1])
+            if set(prep[multi][0]) - {"right_disp_map", "step"}:
+                diag.append(f"run_prepare reads {sorted(set(prep[multi][0]) - {'right_disp_map', 'step'})} before assigning")
+            for miss in {"left_disparity", "right_disparity"} - set(prep[multi][1]):
+                diag.append(f"run_prepare(multi={multi}) does not always assign {miss}")
+            for n in first:
+                r, must, _ = cbs[(n, rdm)]
+                if set(r) - agreed:
+                    diag.append(f"{n}(multi={multi}, rdm={rdm}) reads leftover {sorted(set(r) - agreed)}")
+                agreed |= set(must)
+            for n in callbacks:
+                if n in first or (n in multiscale_cbs and not multi):
+                    continue
+                r = cbs[(n, rdm)][0]
+                if set(r) - agreed:
+                    diag.append(f"{n}(multi={multi}, rdm={rdm}) reads leftover {sorted(set(r) - agreed)}")
+    for name, _drel, _base, ws in shared:
+        pass
+    diag = sorted(set(diag))
     print(f"Gen/History.v {'written' if changed else 'unchanged'}: {len(callbacks)} run callbacks, "
-          f"{len(init_must)} attributes, {len(shared)} shared dictionaries, {len(registries)} registries")
+          f"{len(init_must)} attributes, {len(shared)} shared dictionaries, {len(registries)} registries"
+          + ("; DIAGNOSTIC (not part of the proof) suspicious: " + "; ".join(diag[:6]) if diag else ""))
 
 
 if __name__ == "__main__":
